@@ -463,3 +463,27 @@ def coverage_extra(tier, seed, results):
                            "families": list(ROOT_FAMILIES) + list(MIN_FAMILIES), "n": [1, 2, 5, 8],
                            "layouts": ["(n,)", "(n,1)", "(2,n)"], "guesses": 4, "tolerance_pairs": 4,
                            "maxiter": ["generous", 1, 2, 3]}}
+
+# ---- call-order plane (executed by mc/core.py in fresh interpreters, see mc/props/_hist_common.py): the result of
+# a call must not depend on which other calls (other dtype / method / size / options) were made before it
+_HIST_LABELS = [('float32', 'rootfinder', 'broyden1'), ('float64', 'rootfinder', 'broyden1'), ('float64', 'rootfinder', 'linearmixing'), ('float64', 'equilibrium', 'anderson_acc'), ('float64', 'minimize', 'broyden1'), ('float32', 'equilibrium', 'anderson_acc')]
+HISTORY = {"labels": ["/".join(str(x) for x in c) for c in _HIST_LABELS], "tol": [0.001, 1e-07, 1e-07, 1e-07, 1e-07, 0.001],
+           "depth": {"quick": 2, "thorough": 3},
+           "prelude": r'''import torch, xitorch
+from xitorch.optimize import rootfinder, equilibrium, minimize
+CALLS = %r
+def do(i):
+    dtn, fn, method = CALLS[i]
+    dt = getattr(torch, dtn)
+    W = torch.tensor([[0.3, -0.2], [0.1, 0.4]], dtype=dt)
+    c = torch.tensor([0.5, -0.3], dtype=dt)
+    y0 = torch.zeros(2, dtype=dt)
+    tol = 1e-10 if dtn == "float64" else 1e-5
+    if fn == "rootfinder":
+        y = rootfinder(lambda y: y - torch.tanh(W @ y) - c, y0, method=method, f_tol=tol, x_tol=tol, maxiter=80)
+    elif fn == "equilibrium":
+        y = equilibrium(lambda y: torch.tanh(W @ y) + c, y0, method=method, f_tol=tol, x_tol=tol, maxiter=80)
+    else:
+        y = minimize(lambda y: ((y - c) ** 2).sum() + 0.3 * torch.cosh(W @ y).sum(), y0, method=method, f_tol=tol, x_tol=tol, maxiter=80)
+    return y.double().reshape(-1).tolist()
+''' % (_HIST_LABELS,)}
